@@ -9,7 +9,7 @@ from . import npmodel as npm
 def pi_const(ctx):
     if 'pi' not in ctx.ghost:
         p = z3.Real('pi')
-        ctx.pc.append(z3.And(p > z3.RealVal('3.14159265'), p < z3.RealVal('3.14159266')))
+        ctx.axioms.append(z3.And(p > z3.RealVal('3.14159265'), p < z3.RealVal('3.14159266')))
         ctx.ghost['pi'] = p
     return ctx.ghost['pi']
 
@@ -34,7 +34,7 @@ def apply1(ctx, name, t):
     key = t.get_id()
     if any(k == key for k, _, _ in r['apps']):
         return v
-    A = ctx.pc.append
+    A = ctx.axioms.append
     if name == 'tanh':
         A(z3.And(v > -1, v < 1))
         A(z3.And(z3.Implies(t == 0, v == 0), z3.Implies(t > 0, v > 0), z3.Implies(t < 0, v < 0)))
@@ -47,7 +47,10 @@ def apply1(ctx, name, t):
         A(v > 0)
         A(v >= 1 + t)
         A(z3.Implies(t == 0, v == 1))
+        A(z3.Implies(t <= 0, v <= 1))
+        A(z3.Implies(t >= 0, v >= 1))
         for _, t2, v2 in r['apps']:
+            A(z3.Implies(t == t2, v == v2))
             A(z3.Implies(t <= t2, v <= v2))
             A(z3.Implies(t2 <= t, v2 <= v))
             A(z3.Implies(t < t2, v < v2))
@@ -55,6 +58,7 @@ def apply1(ctx, name, t):
     elif name == 'log':
         A(z3.Implies(t > 0, v <= t - 1))
         A(z3.Implies(t == 1, v == 0))
+        A(z3.Implies(t >= 1, v >= 0))
         for _, t2, v2 in r['apps']:
             A(z3.Implies(z3.And(t > 0, t2 > 0, t <= t2), v <= v2))
             A(z3.Implies(z3.And(t > 0, t2 > 0, t2 <= t), v2 <= v))
